@@ -176,6 +176,11 @@ Proof.
   intros H; rewrite !skipnN_skipn, skipn_app. unfold lenN in H.
   replace (N.to_nat n - length a)%nat with 0%nat by lia. reflexivity.
 Qed.
+Lemma skipnN_app_ge {A} (a b : list A) n : lenN a <= n -> skipnN (a ++ b) n = skipnN b (n - lenN a).
+Proof.
+  intros H; rewrite !skipnN_skipn, skipn_app. unfold lenN in *.
+  rewrite skipn_all2 by lia. cbn [app]. f_equal. lia.
+Qed.
 Lemma firstnN_firstnN {A} (l : list A) n m : firstnN (firstnN l n) m = firstnN l (N.min m n).
 Proof. rewrite !firstnN_firstn, firstn_firstn. f_equal; lia. Qed.
 
